@@ -668,9 +668,10 @@ M("c07-f5-reintroduced", "C07", ["C07.consume"],
                         break"""), note="F5")
 M("c07-f6-reintroduced", ["C07", "C16"], ["C07.cachekey", "C16.cachekey"],
   E(SIG, """                method.__code__,
+                wrapped_code,
             )""", """                method.__code__.co_varnames,
             )"""),
-  E(SIG, "return hash((method.__qualname__, method.__code__))", "return hash((method.__qualname__, method.__code__.co_varnames))"), note="F6")
+  E(SIG, "return hash((method.__qualname__, method.__code__, wrapped_code))", "return hash((method.__qualname__, method.__code__.co_varnames))"), note="F6")
 M("c07-adapter-drops-kwargs", "C07", ["C07.adapter"],
   E(DISP, """            ba = sig_bind_expected(*args, **kwargs)
             return a_callable(*ba.args, **ba.kwargs)""", """            ba = sig_bind_expected(*args, **kwargs)
@@ -981,6 +982,17 @@ M("c12-resolve-stops-after-first-builder", "C12", ["C12.allproviders"],
                 executor.add(key, spec, builder)
                 break
 """))
+
+M("c07-f23-reintroduced", ["C07", "C16"], ["C07.cachekey", "C16.cachekey"],
+  E("statemachine/signature.py", """                method.__code__,
+                wrapped_code,
+            )""", """                method.__code__,
+            )"""),
+  E("statemachine/signature.py", "        return hash((method.__qualname__, method.__code__, wrapped_code))", "        return hash((method.__qualname__, method.__code__))"),
+  note="F23: key built from the outer (decorator) code object only")
+M("c07-key-is-code-of-outer-object-only", ["C07", "C16"], ["C07.cachekey", "C16.cachekey"],
+  E("statemachine/signature.py", "        return hash((method.__qualname__, method.__code__, wrapped_code))", "        return hash(method.__code__)"),
+  note="seeded s07-3 re-expressed on the repaired tree")
 
 # ----------------------------------------------------------------------------------------- C17
 M("c17-clone-resets-allow-event", "C17", ["C17.carry"],
